@@ -251,3 +251,111 @@ theorem decodeNALUs_step (P : Nat) (d : Dec) (p : Pkt) (hi : FragInv P d)
     exact absurd (Prod.ext rfl h : decodeNALUs0 d p = ((decodeNALUs0 d p).1, .nalus ns)) (hno _ _)
 
 end Rtsp.Codec.H264
+
+namespace Rtsp.Codec.H264
+open Rtsp.Rtp Rtsp.Codec.H26x Rtsp.Facts
+
+/-! ### the frame buffer -/
+
+/-- what the frame-buffer stage does not touch -/
+def fragPart (d : Dec) : List Bytes × Nat × UInt16 × Bool × Bool :=
+  (d.fragments, d.fragmentsSize, d.fragmentNextSeqNum, d.firstPacketReceived, d.annexBMode)
+
+theorem fbInv_reset (d : Dec) : FbInv d.resetFrameBuffer :=
+  ⟨rfl, rfl, by simp [Dec.resetFrameBuffer], by simp [Dec.resetFrameBuffer], by simp [Dec.resetFrameBuffer]⟩
+
+theorem fbInv_of_fbPart (d d' : Dec) (h : fbPart d' = fbPart d) (hi : FbInv d) : FbInv d' := by
+  simp only [fbPart, Prod.mk.injEq] at h
+  obtain ⟨h1, h2, h3, _⟩ := h
+  exact ⟨by rw [h2, h1]; exact hi.1, by rw [h3, h1]; exact hi.2, by rw [h2]; exact hi.3,
+    by rw [h3]; exact hi.4, by rw [h1]; exact hi.5⟩
+
+theorem fragInv_of_fragPart (P : Nat) (d d' : Dec) (h : fragPart d' = fragPart d) (hi : FragInv P d) :
+    FragInv P d' := by
+  simp only [fragPart, Prod.mk.injEq] at h
+  obtain ⟨h1, h2, _⟩ := h
+  exact ⟨by rw [h2, h1]; exact hi.1, by rw [h2]; exact hi.2, by rw [h2, h1]; exact hi.3⟩
+
+theorem addToFrameBuffer_spec (d : Dec) (ns : List Bytes) (ts : UInt32) (hi : FbInv d)
+    (hall : AllNonempty ns) :
+    FbInv (addToFrameBuffer d ns ts).1 ∧ fragPart (addToFrameBuffer d ns ts).1 = fragPart d ∧
+    ((addToFrameBuffer d ns ts).2 = true →
+      (addToFrameBuffer d ns ts).1.frameBuffer = d.frameBuffer ++ ns ∧
+      (addToFrameBuffer d ns ts).1.frameBufferTimestamp = ts) ∧
+    ((addToFrameBuffer d ns ts).2 = false → (addToFrameBuffer d ns ts).1.frameBuffer = []) := by
+  obtain ⟨h1, h2, h3, h4, h5⟩ := hi
+  unfold addToFrameBuffer
+  split
+  · exact ⟨fbInv_reset d, rfl, by simp, fun _ => rfl⟩
+  · dsimp only
+    split
+    · exact ⟨fbInv_reset d, rfl, by simp, fun _ => rfl⟩
+    · refine ⟨⟨by simp [h1], by simp [h2], by simp only; omega, by simp only; omega, ?_⟩, rfl,
+        fun _ => ⟨rfl, rfl⟩, by simp⟩
+      intro n hn
+      simp only [List.mem_append] at hn
+      rcases hn with hn | hn
+      · exact h5 n hn
+      · exact hall n hn
+
+/-- result of the frame-buffer stage: invariant kept; an `ok` output is a whole frame buffer -/
+theorem addNALUs_spec (d1 : Dec) (ns : List Bytes) (ts : UInt32) (m : Bool) (hi : FbInv d1)
+    (hne : ns ≠ []) (hall : AllNonempty ns) :
+    FbInv (addNALUs d1 ns ts m).1 ∧ fragPart (addNALUs d1 ns ts m).1 = fragPart d1 ∧
+    ∀ f, (addNALUs d1 ns ts m).2 = .ok f →
+      f ≠ [] ∧ AllNonempty f ∧ f.length ≤ maxNALUs ∧ totalLen f ≤ maxAU := by
+  unfold addNALUs
+  split
+  · rename_i hts
+    have hr := addToFrameBuffer_spec d1.resetFrameBuffer ns ts (fbInv_reset d1) hall
+    split
+    · rename_i d2 heq
+      rw [heq] at hr
+      exact ⟨hr.1, hr.2.1, by simp⟩
+    · rename_i d2 heq
+      rw [heq] at hr
+      refine ⟨hr.1, hr.2.1, ?_⟩
+      intro f hf
+      simp only [DecRes.ok.injEq] at hf
+      subst hf
+      refine ⟨?_, hi.5, by rw [← hi.1]; exact hi.3, by rw [← hi.2]; exact hi.4⟩
+      intro h0; simp [h0] at hts
+  · have hr := addToFrameBuffer_spec d1 ns ts hi hall
+    split
+    · rename_i d2 heq
+      rw [heq] at hr
+      exact ⟨hr.1, hr.2.1, by simp⟩
+    · rename_i d2 heq
+      rw [heq] at hr
+      split
+      · exact ⟨hr.1, hr.2.1, by simp⟩
+      · refine ⟨fbInv_reset d2, by rw [← hr.2.1]; rfl, ?_⟩
+        intro f hf
+        simp only [DecRes.ok.injEq] at hf
+        subst hf
+        obtain ⟨hfb, _⟩ := hr.2.2.1 rfl
+        refine ⟨by rw [hfb]; simp [hne], hr.1.5, by rw [← hr.1.1]; exact hr.1.3, by rw [← hr.1.2]; exact hr.1.4⟩
+
+/-- the whole-state invariant -/
+structure Inv (P : Nat) (d : Dec) : Prop where
+  frag : FragInv P d
+  fb   : FbInv d
+
+theorem decode_spec (P : Nat) (d : Dec) (p : Pkt) (hi : Inv P d) (hp : p.payload.length ≤ P) :
+    Inv P (decode d p).1 ∧
+    ∀ f, (decode d p).2 = .ok f →
+      f ≠ [] ∧ AllNonempty f ∧ f.length ≤ maxNALUs ∧ totalLen f ≤ maxAU := by
+  have hn := decodeNALUs_step P d p hi.1 hp
+  have hfb1 : FbInv (decodeNALUs d p).1 := fbInv_of_fbPart d _ hn.2.1 hi.2
+  unfold decode
+  split
+  · rename_i d1 heq; rw [heq] at hn hfb1; exact ⟨⟨hn.1, hfb1⟩, by simp⟩
+  · rename_i d1 heq; rw [heq] at hn hfb1; exact ⟨⟨hn.1, hfb1⟩, by simp⟩
+  · rename_i d1 heq; rw [heq] at hn hfb1; exact ⟨⟨hn.1, hfb1⟩, by simp⟩
+  · rename_i d1 ns heq
+    rw [heq] at hn hfb1
+    obtain ⟨hne, hall⟩ := hn.2.2 ns rfl
+    have ha := addNALUs_spec d1 ns p.ts p.marker hfb1 hne hall
+    exact ⟨⟨fragInv_of_fragPart P d1 _ ha.2.1 hn.1, ha.1⟩, ha.2.2⟩
+
+end Rtsp.Codec.H264
